@@ -7,6 +7,7 @@ package c02
 
 import (
 	"fmt"
+	"os"
 	"sort"
 	"strings"
 
@@ -180,6 +181,10 @@ func (p *Prop) Generate(base uint64, index int, env *sim.Env) *sim.Case {
 	r := sim.NewRand(seed)
 	format := Formats[index%len(Formats)]
 	j := index / len(Formats)
+	if only := os.Getenv("ZZ_C02_FORMAT"); only != "" {
+		// development aid: restrict a batch to one format (never set by the registered commands)
+		format, j = only, index
+	}
 	D := docsPerFormat(env.Tier)
 	docIdx := j % D
 	block := j / D
